@@ -207,9 +207,10 @@ impl<V: VT> TA<V> {
         })
     }
     fn run(&self, m: Method, hay: &[u8]) -> Vec<TM<V>> {
+        let cap = 512 * (hay.len() + 4);
         macro_rules! col {
             ($it:expr) => {
-                $it.map(|m| (m.start(), m.end(), m.value())).collect()
+                $it.take(cap).map(|m| (m.start(), m.end(), m.value())).collect()
             };
         }
         in_lib(|| match self {
